@@ -369,6 +369,9 @@ C05_PacketsWellFormed == fresh = "Write" => wire[NW].bad = ""
 \* ---- C15 (the clause about caller-supplied identifiers, on the retrying client) -------------------
 \* an identifier the application put on a message is the identifier of every PUBLISH / PUBREL of that message, also
 \* when the first transmission is deferred (sent from the client's queued copy) or repeated
+\* "never 0": every packet of the client that carries a packet identifier -- also a retransmitted PUBREL -- carries a non-zero one
+C15_NonZeroId == fresh = "Write" =>
+  ((wire[NW].p \in {"PUBREL", "SUBSCRIBE", "UNSUBSCRIBE", "PUBACK", "PUBREC", "PUBCOMP"} \/ (wire[NW].p = "PUBLISH" /\ wire[NW].qos > 0)) => wire[NW].id # 0)
 C15_PresetIdKept == fresh = "Idle" =>
   \A j \in 1..Len(wire) : IsPub(j) =>
     LET n == wire[j].tag IN
@@ -447,7 +450,7 @@ Obs == [
   C03_OrderPerConn |-> C03_OrderPerConn, C03_FirstTxOrder |-> C03_FirstTxOrder, C03_FirstDeliveryOrder |-> C03_FirstDeliveryOrder,
   C08_StableSubs |-> C08_StableSubs, C08_NoResubUnlessDue |-> C08_NoResubUnlessDue,
   C12_DupFlag |-> C12_DupFlag, C12_SameOnRetx |-> C12_SameOnRetx, C12_NoPubAfterRel |-> C12_NoPubAfterRel,
-  C12_NoQoS0Retx |-> C12_NoQoS0Retx, C12_RelHasPublish |-> C12_RelHasPublish, C12_AsSubmitted |-> C12_AsSubmitted, C15_PresetIdKept |-> C15_PresetIdKept, C05_PacketsWellFormed |-> C05_PacketsWellFormed, C19_TimeoutTyped |-> C19_TimeoutTyped, C19_ConnectCtxErr |-> C19_ConnectCtxErr,
+  C12_NoQoS0Retx |-> C12_NoQoS0Retx, C12_RelHasPublish |-> C12_RelHasPublish, C12_AsSubmitted |-> C12_AsSubmitted, C15_PresetIdKept |-> C15_PresetIdKept, C15_NonZeroId |-> C15_NonZeroId, C05_PacketsWellFormed |-> C05_PacketsWellFormed, C19_TimeoutTyped |-> C19_TimeoutTyped, C19_ConnectCtxErr |-> C19_ConnectCtxErr,
   C04_AckAfterHandover |-> C04_AckAfterHandover, C17_RightHandler |-> C17_RightHandler, C17_AtMostOnce |-> C17_AtMostOnce, C17_NoneDropped |-> C17_NoneDropped, C17_HandleReturns |-> C17_HandleReturns,
   C18_TimeoutClosesAndReports |-> C18_TimeoutClosesAndReports, C18_NoStall |-> C18_NoStall ]
 
